@@ -80,7 +80,10 @@ def replay(cases):
                 if name == "extract":
                     res = src.extract(a1, a2)
                 elif name == "span":
-                    res = src.extractSpanTime(ObsTime.readUnixTime(base + a1), ObsTime.readUnixTime(base + a2))
+                    if (a1 + 2 * a2 + n) % 2 == 0:
+                        res = src.extractSpanTime(ObsTime.readUnixTime(base + a1), ObsTime.readUnixTime(base + a2))
+                    else:             # the span handed over as a TRACK: from its first to its last timestamp
+                        res = src.extractSpanTime(tk.mk_track([0.0, 0.0, 0.0], ts=[a1, (a1 + a2) / 2.0, a2]))
                 elif name == "every":
                     res = src % a1
                 elif name == "pattern":
